@@ -83,6 +83,14 @@ def specials():
     # last item equal to (all synthetic objects compare equal) but not identical with next_inner: replace, not insert
     out.append(dict(base, root=["O", 0], unwrap={"0": ["seq", [["F", 0], ["O", 1], ["F", 1]], "tuple"]},
                     elab={"0": ["seq", [["I", ["F", 2]], ["I", ["O", 2]]], False]}))
+    # a @yields_frames iterator may yield None (an absent link) at any position: skipped like a None entry of a
+    # returned sequence, everything after it is kept; also when the iterator raises afterwards
+    f3 = dict(base, nf=3, no=3, frames={str(i): ["plain"] for i in range(3)}, root=["O", 0], elab={})
+    for items in ([None, ["F", 0], ["F", 1], ["F", 2]], [["F", 0], None, ["F", 1], ["F", 2]], [["F", 0], ["F", 1], None, ["O", 1]],
+                  [None, None, ["F", 0], None, ["F", 1], None], [None], [None, None], [["F", 0], None], [None, ["O", 1]]):
+        for raises in (False, True):
+            out.append(dict(f3, unwrap={"0": ["iter", items, raises], "1": ["none"]}))
+            out.append(dict(f3, unwrap={"0": ["seq", [["O", 2], ["F", 2]], "tuple"], "2": ["iter", items, raises], "1": ["none"]}))
     # where the progress counter is reset (frame / irreducible item) and where it is not (empty results)
     out += [G.chain_mid_case(60, 60, mid, end) for mid in ("frame", "leaf") for end in ("frame", "leaf")]
     out += [G.chain_mid_case(99, 99, "frame", "leaf"), G.chain_mid_case(50, 101, "leaf", "frame")]
@@ -94,7 +102,9 @@ ALPH_U = lambda o, no, nf: (
     [["none"], ["raise"], ["seq", [], "tuple"]]
     + [["one", it] for it in _items(o, no, nf)]
     + [["seq", [a, b], "list"] for a in _items(o, no, nf) for b in _items(o, no, nf)]
-    + [["iter", [a], r] for a in _items(o, no, nf) for r in (False, True)])
+    + [["iter", [a], r] for a in _items(o, no, nf) for r in (False, True)]
+    + [["iter", [None, a], False] for a in _items(o, no, nf)]
+    + ([["iter", [a, None, b], True] for a in _items(o, no, nf) for b in _items(o, no, nf)] if o == 0 else []))
 ALPH_E = lambda f, no, nf: (
     [["none", None, True], ["seq", [], False], ["raise", None, True], ["seq", [["N"]], False]]
     + [["seq", [["I", a]], False] for a in _items(f, no, nf)]
@@ -138,9 +148,9 @@ def make_inputs(tier, seed):
     yield from specials()
     n = 1500 if tier == "quick" else 12000
     for _ in range(n):
-        yield G.gen_case(rng, nf=5, no=5)
+        yield G.gen_case(rng, nf=5, no=5, iter_none=True)
     for _ in range(n // 5):
-        yield G.gen_case(rng, nf=3, no=8)
+        yield G.gen_case(rng, nf=3, no=8, iter_none=True)
     rng2 = random.Random(seed * 7919 + 11)
     for _ in range(n):
         yield G.gen_dense(rng2, nf=rng2.choice([5, 7]), no=rng2.choice([3, 4]))
@@ -148,7 +158,7 @@ def make_inputs(tier, seed):
     rng3 = random.Random(seed * 7919 + 12)
     made = 0
     while made < n // 5:
-        d = G.gen_case(rng3, nf=5, no=5, gens=True, weird=False, gen2=True)
+        d = G.gen_case(rng3, nf=5, no=5, gens=True, weird=False, gen2=True, iter_none=True)
         if G.acyclic(d):
             made += 1
             yield d
